@@ -47,6 +47,13 @@ def programs(tier):
     texts += [c["text"] for i, c in enumerate(rf[0])
               if tier == "thorough" or (c["x"] in ext and c["y"] in ext) or i % 6 == seed() % 6]
     texts += shared_programs(tier, part=3)
+    # small-scope exhaustiveness: every program of 2 / 3 instructions over five 12-symbol slices of the rule groups
+    s2 = [c["text"] for c in tlc_generate("Gen_Slice", cfg="Gen_Slice2")[0]]
+    s3 = [c["text"] for c in tlc_generate("Gen_Slice", cfg="Gen_Slice")[0]]
+    if tier == "thorough":
+        texts += s2 + s3
+    else:
+        texts += [t for i, t in enumerate(s2) if i % 4 == seed() % 4] + [t for i, t in enumerate(s3) if i % 40 == seed() % 40]
     return list(dict.fromkeys(texts)), [r1, r2, rb[1], re_[1], rk[1], rf[1]]
 
 
